@@ -61,6 +61,9 @@ type Guard struct {
 	// Instr optionally marks arbitrary instructions (stores, sends) whose execution
 	// establishes an Executed-kind guard.
 	Instr func(in ssa.Instruction) bool
+	// Pure: the guard is a pure predicate of an immutable value (e.g. a method of a
+	// by-value parameter); calling it again does not invalidate what an earlier call established.
+	Pure bool
 }
 
 // G is a convenience constructor: callee short names + pass kind on the last result.
@@ -282,6 +285,9 @@ func (gf *GuardFlow) DerivedPassed(f factSet, name string) bool {
 func (gf *GuardFlow) transfer(f factSet, in ssa.Instruction) factSet {
 	if gis, ok := gf.calls[in]; ok {
 		for _, gi := range gis {
+			if gf.Guards[gi].Pure {
+				continue
+			}
 			for di, d := range gf.derived {
 				for _, alt := range d.Alts {
 					for _, nm := range alt {
